@@ -555,6 +555,28 @@ class World:
             exp = call(fx, op, aux)
         except Exception as e:
             self.log.add("float_invalid", type(e).__name__)
+            if self.prop == "C05" and fn in INPLACE and R.is_q(xs[0]) and "fx" in locals() and isinstance(locals().get("fx"), list) and not op.get("fault"):
+                # the float program refuses this in-place call and leaves its destination as it was: the quantized
+                # call is made too (a caller catches the error and carries on) and must leave the destination alone
+                before = fx[0]
+                try:
+                    with shallow_recursion():
+                        call(xs, op, locals().get("aux"))
+                    refused = False
+                except (InjectedFault, InjectedInterrupt):
+                    raise
+                except Exception:
+                    refused = True
+                try:
+                    now = xs[0].dequantize()
+                    same = now.shape == before.shape and bool(((now == before) | (torch.isnan(now) & torch.isnan(before))).all())
+                except Exception:
+                    same = False
+                self.res["judged"] += 1
+                self.probe("inplace_call_refused_by_float_program")
+                if refused and not same:
+                    self.violate("C05", "operand", fn, {"clause": "value", "cause": "destination_changed_by_refused_inplace_call", "operands": opclass(xs[0])}, f"{fn} raised (as the float call does) but its destination (slot {src[0]}) no longer dequantizes to what it did", i)
+                self.check_pool(fn, i, set(), False)
             return "float_invalid"
         if fn in ("view", "unsafe_view") and R.is_q(xs[0]):
             # whether a view exists depends on strides, and the dequantized shadow is always dense: ask
